@@ -107,7 +107,11 @@ class StrangerFactory(protocol.ClientFactory):
 
 
 def configs(tier):
-    return [{"chunk": "small" if i % 2 else None} for i in range(4)]
+    # the fifth: the relay is the only path (nobody listens, no strangers,
+    # nobody cancels), with slow readers - reads coalesce, e.g. the relay's
+    # "ok" and the peer's handshake in one chunk
+    return [{"chunk": "small" if i % 2 else None} for i in range(4)] + \
+        [{"chunk": None, "focus": "relay_only"}]
 
 
 def run_one(seed, tape, opts):
@@ -116,10 +120,14 @@ def run_one(seed, tape, opts):
     if opts.get("chunk"):
         sim.chunk_mode = opts["chunk"]
     net = sim.net
+    focus = opts.get("focus")
     s_listens = tape.choose(3, "s_listens") != 0
     r_listens = tape.choose(3, "r_listens") != 0
     relay_mode = tape.pick(("none", "none", "both", "both", "sender_only",
                             "dead", "two"), "relay")
+    if focus == "relay_only":
+        s_listens = r_listens = False
+        relay_mode = tape.pick(("both", "both", "two"), "relay_f")
     relay_s = relay_r = None
     if relay_mode == "two":
         # each side was configured with its own relay: after the hint
@@ -154,7 +162,7 @@ def run_one(seed, tape, opts):
     hs = list(hs) + [h for h in (bogus(), bogus()) if h]
     hr = list(hr) + [h for h in (bogus(),) if h]
     # strangers
-    nstr = tape.choose(4, "nstr")
+    nstr = tape.choose(4, "nstr") if not focus else 0
     strangers = []
     wrongkey_parties = []
     for i in range(nstr):
@@ -187,7 +195,7 @@ def run_one(seed, tape, opts):
         else:
             hs = hs + [hint]
     # deliver hints (mailbox path abstracted away)
-    late_key = tape.choose(4, "latekey") == 0
+    late_key = tape.choose(4, "latekey") == 0 and not focus
     S.t.set_transit_key(w.key)
     if not late_key:
         R.t.set_transit_key(w.key)
@@ -239,6 +247,8 @@ def run_one(seed, tape, opts):
     # the application may give up: connect()'s Deferred is cancelled while
     # the race is still open (a fifth of the runs, either party)
     cancel_who = tape.pick((None, None, None, None, S, R), "cancel_who")
+    if focus:
+        cancel_who = None
     cancelled = []
 
     batch = [0]
@@ -274,11 +284,12 @@ def run_one(seed, tape, opts):
                    for i, (lab, fn) in enumerate(pending_ops)]
     sim.app_events = app_events
     # faults: cut contending links
-    cut_budget = [tape.choose(3, "cuts")]
+    cut_budget = [tape.choose(3, "cuts") if not focus else 0]
 
     # ... and slow readers: an end stops draining for a while (reads then
     # coalesce: e.g. the relay's "ok" and the peer's handshake in one chunk)
-    stall_budget = [tape.choose(4, "stalls")]
+    stall_budget = [tape.choose(4, "stalls") if not focus else
+                    1 + tape.choose(3, "stalls_f")]
     stalled_until = {}
 
     def stall(e):
